@@ -34,6 +34,7 @@ DOCS = {
     "empty-examples": F([S(1), O(1, [(2, []), (0, [])]), S(1)]),       # second Examples table is header-only
     # addressable entities that own no scenario at all: an outline with a header-only Examples table, a Rule without scenarios
     "childless": F([S(1), O(1, [(0, [])]), R([]), R([S(1)])]),
+    "two-scenarios": F([S(1), S(1)]),
     "rules-only": F([R([S(1), O(1, [(2, [])])], tags=["r1"]), R([S(1)])]),
     # @setup/@teardown exempt only the scenario that carries the tag itself, not what inherits it from a feature or rule
     "inherited-setup": F([S(1), S(1, tags=["setup"]), R([S(1), S(1)], tags=["setup"])], tags=["teardown"]),      # nothing directly under the feature
@@ -250,6 +251,11 @@ def jobs(tier, seed):
                   reach=["C10.files.selected==union-of-addressed-entities"], min_paths=50, cost=2000, validate=40, closure=False))
     js.append(Job("files.listfile", "props.c10:h_files", {"docs": ["rule", "plain"], "pattern": [0, 1, 1], "small_lines": True, "listfile": True},
                   reach=["C10.files.selected==union-of-addressed-entities"], min_paths=50, cost=2000, validate=40, closure=False))
+    # three locations of one small file (overlapping ones included: two lines of one scenario, a rule and one of its scenarios)
+    js.append(Job("files.triple.small", "props.c10:h_files", {"docs": ["two-scenarios"], "pattern": [0, 0, 0]},
+                  reach=["C10.files.selected==union-of-addressed-entities"], min_paths=100, cost=3000, validate=40, closure=False))
+    js.append(Job("files.triple.rule", "props.c10:h_files", {"docs": ["rule"], "pattern": [0, 0, 0], "small_lines": True},
+                  reach=["C10.files.selected==union-of-addressed-entities"], min_paths=100, cost=3000, validate=40, closure=False))
     if tier == "thorough":
         js.append(Job("files.triple", "props.c10:h_files", {"docs": ["outline"], "pattern": [0, 0, 0], "small_lines": True},
                       reach=["C10.files.selected==union-of-addressed-entities"], min_paths=100, cost=4000, validate=100, closure=False))
